@@ -73,6 +73,7 @@ class C06(Check):
             js.append(dict(kind='all', topo=topo))
         for topo in rng.sample(netlib.topologies(N3, 3), 60 if tier == 'quick' else 400):
             js.append(dict(kind='all', topo=topo))
+        js.sort(key=lambda j: 0 if (j.get('ids') or j['kind'] in ('pdict', 'all')) else 1)      # probes, unit jobs and all-pairs jobs first: the target / cut enumeration may run into the budget
         if tier == 'thorough':
             extra = []
             for _ in range(600):
